@@ -22,6 +22,9 @@ func init() {
 const lruPkg = "github.com/hashicorp/golang-lru"
 
 func runC11(c *eng.Ctx) {
+	// (shared with C05/C08) the cursors stream is compacted: an index rebuild must accept the gaps compaction leaves
+	c.Rule("R05.8", "K2")
+	ruleRebuildIndexAcceptsGaps(c)
 	c.Rule("R16.8", "K5")
 	ruleStreamKeepsTheConfigItWasHanded(c)
 	p := c.P
